@@ -205,7 +205,7 @@ func genC17(r *rng, thorough bool, emit func(FlowScenario)) {
 func genC18(r *rng, thorough bool, emit func(FlowScenario)) {
 	t := &tokGen{r: r}
 	for _, k := range leafKinds() {
-		for pk, post := range []string{"=", "=default", "=custom"} {
+		for pk, post := range []string{"=", "=default", "=custom", "= ", "=\n\t"} {
 			_ = pk
 			cfg := k
 			cfg.Budget = 1
@@ -229,7 +229,7 @@ func genC18(r *rng, thorough bool, emit func(FlowScenario)) {
 	// batch nodes: sizes 0..3 x concurrency 0..2 x post action, directly and as a routed step
 	for size := 0; size <= 3; size++ {
 		for conc := 0; conc <= 2; conc++ {
-			for _, post := range []string{"=", "=default", "=custom"} {
+			for _, post := range []string{"=", "=default", "=custom", "= "} {
 				for _, shape := range []string{"results", "anys", "typed", "nil", "single"} {
 					if (shape == "nil") != (size == 0) && shape != "results" && shape != "anys" {
 						continue
